@@ -8,7 +8,10 @@ Read with `ast` from scrapli/channel/{sync_channel,async_channel,base_channel}.p
     call that reaches `self.transport.<method>()` — directly or through any helper method of the class
     or of BaseChannel, which are inlined — and every `with self._channel_lock()` / `async with`;
   * whether `__init__` creates `channel_lock` exactly when `_base_channel_args.channel_lock` is true,
-    with threading.Lock / asyncio.Lock.
+    with threading.Lock / asyncio.Lock;
+  * whether anything but `__init__` — any method of the class or of BaseChannel, reachable or not: open(),
+    close(), ... — binds or deletes `channel_lock` (`gen_lock_rebound_*`: the lock object's identity does
+    not survive a re-open; Lock.v layer D).
 Anything the translator does not know (statement kinds, other context managers, aliasing of the
 transport or of an I/O method, decorators, recursion between helpers) aborts the generation."""
 import ast
@@ -178,8 +181,9 @@ class Translator:
         if isinstance(t, (ast.Tuple, ast.List)):
             return seq(*[self.target(x) for x in t.elts])
         if isinstance(t, ast.Attribute):
-            if is_self_attr(t, "transport") or is_self_attr(t, "channel_lock") or (is_self_attr(t) and t.attr in self.methods):
+            if is_self_attr(t, "transport") or (is_self_attr(t) and t.attr in self.methods):
                 raise Unsupported("assignment to self.%s at line %d" % (t.attr, t.lineno))
+            # (an assignment to self.channel_lock is not a transport event: it is accounted for by lock_rebound)
             return self.expr(t.value)
         if isinstance(t, ast.Subscript):
             return seq(self.expr(t.value), self.expr(t.slice))
@@ -402,6 +406,25 @@ def init_ok(cls, ctor_names, imports):
     return ok, "none=%d guarded=%d other=%d" % (none_assigns, guarded, other)
 
 
+def lock_rebound(classes):
+    """does any function of the given class bodies other than `__init__` bind / delete the attribute
+    `channel_lock` (of any object)?  Returns (bool, [where]).  Indirect ways of setting an attribute abort."""
+    where = []
+    for cls in classes:
+        for fn in cls.body:
+            if not isinstance(fn, FUNC):
+                continue
+            for n in ast.walk(fn):
+                if isinstance(n, ast.Attribute) and n.attr == "channel_lock" and isinstance(n.ctx, (ast.Store, ast.Del)):
+                    if fn.name != "__init__":
+                        where.append("%s.%s:%d" % (cls.name, fn.name, n.lineno))
+                elif isinstance(n, ast.Call) and isinstance(n.func, ast.Name) and n.func.id in ("setattr", "delattr", "vars"):
+                    raise Unsupported("%s() in %s.%s at line %d" % (n.func.id, cls.name, fn.name, n.lineno))
+                elif isinstance(n, ast.Attribute) and n.attr in ("__dict__", "__setattr__", "__delattr__"):
+                    raise Unsupported("%s in %s.%s at line %d" % (n.attr, cls.name, fn.name, n.lineno))
+    return bool(where), where
+
+
 # ---------------------------------------------------------------------------------------------
 def coq_shape(s):
     k = s[0]
@@ -493,7 +516,7 @@ def analyse(rel, cls_name, base_methods, base_props, ctor_names, cm_deco):
             raise Unsupported("primitive %s missing" % p)
         tr.method_shape(p)
     ok, why = init_ok(cls, ctor_names, imports)
-    return {"cm": cm, "ops": ops, "init_ok": ok, "init_why": why, "sites": sorted(set(tr.sites)), "own": own}
+    return {"cm": cm, "ops": ops, "init_ok": ok, "init_why": why, "sites": sorted(set(tr.sites)), "own": own, "cls": cls}
 
 
 def generate(outdir):
@@ -525,6 +548,9 @@ def generate(outdir):
         lines.append("(* %s: %s *)" % (cls_name, rel))
         lines.append("Definition gen_cm_%s : cmsh := %s." % (stack, coq_cm(a["cm"])))
         lines.append("Definition gen_init_ok_%s : bool := %s. (* %s *)" % (stack, "true" if a["init_ok"] else "false", a["init_why"]))
+        rebound, where = lock_rebound([base, a["cls"]])
+        lines.append("Definition gen_lock_rebound_%s : bool := %s. (* channel_lock bound outside __init__: %s *)"
+                     % (stack, "true" if rebound else "false", ", ".join(where) or "nowhere"))
         for nme in names:
             s, ds = a["ops"][nme]
             lines.append("Definition gen_%s_%s : shape :=\n  %s." % (stack, nme, coq_shape(s)))
@@ -533,6 +559,7 @@ def generate(outdir):
         lines.append("Definition gen_nops_%s : nat := %d." % (stack, len(names)))
         lines.append("")
         info[stack] = {"ops": names, "cm": coq_cm(a["cm"]), "init_ok": a["init_ok"], "init": a["init_why"],
+                       "lock_rebound": where,
                        "transport_call_sites": ["%s:%d:%s" % x for x in a["sites"]],
                        "timeout_wrapped": [x for x in names if "timeout_wrapper" in a["ops"][x][1]]}
     text = "\n".join(lines) + "\n"
